@@ -6,7 +6,8 @@
    every token replaced by NA, -1, 0, 2147483647, 1e308, a word, an empty line, a comment mark; wrong class tag;
    duplicated / dropped line; every integer token replaced by the values JUST OUTSIDE the domain that the specification
    gives to its field: count n -> n-1, n+1, code of an enumeration or flag lo..hi -> hi+1, hi+2, lo-1, rank into a
-   container -> first rank out of range, -1), classifies each faulty file with the INTENDED reader (MustFail / MaySucceed(o')) and
+   container -> first rank out of range, -1; every token written twice -- one value too many on its line, the last line
+   included), classifies each faulty file with the INTENDED reader (MustFail / MaySucceed(o')) and
    with the TRANSCRIPTION of the real reader (predicted outcome, memory-unsafe events), and reports the first
    divergence between the two readers.
 3. harness nf_fault materialises every faulty file (thorough tier: also every byte prefix of every valid file) and
@@ -23,7 +24,6 @@ import vlib
 from vlib import Check, Broken, log
 import checks.c08 as c08
 
-QUICK_CLASSES = ["Db", "DbGrid", "Model", "NeighMoving", "Vario", "Polygons", "Table"]
 # (RuleShift and FracEnviron have no loader that accepts their own files: nothing to corrupt)
 ALL_CLASSES = [c for c in c08.QUICK_CLASSES + c08.MORE_CLASSES if c not in ("RuleShift", "FracEnviron")]
 
@@ -95,6 +95,9 @@ def raw_fault(orig, ft):
         return "\n".join(lines)
     if kind == "wrongclass":
         lines[0] = t
+    elif kind == "duptok":
+        i, a, b = spans[k - 1]
+        lines[i] = lines[i][:b] + " " + lines[i][a:b] + lines[i][b:]
     elif kind == "dupline":
         lines.insert(k, lines[k - 1])
     elif kind == "dropline":
@@ -124,13 +127,16 @@ def file_record(e, fid, bases, text=None):
     return rec
 
 
-def choose_bases(ck, classes, level, nbase, rng, workers):
-    """valid files: instances drawn as in C08, kept when the model reads them back; nbase per class, largest variety"""
+def choose_bases(ck, classes, level, nbase, rng, workers, light=False):
+    """valid files: instances drawn as in C08, kept when the model reads them back; nbase per class.
+    light (quick tier): per class, the SMALLEST file that holds every kind of field that the files of the class hold (count,
+    code of an enumeration, rank, line of values, ...), then the largest files of other structures;
+    otherwise: one per structure first (largest files first), then the rest"""
     w = ck.work
     cfg = os.path.join(w, "shapes.cfg")
     open(cfg, "w").write(c08.classes_cfg(level, classes))
     shapes = vlib.tlc_emit_json("EmitNFShapes", cfg, os.path.join(w, "shapes.json"))
-    picks, _, _ = c08.draw_picks(shapes, 6 * nbase, rng)
+    picks, _, _ = c08.draw_picks(shapes, 6 * max(nbase, 5), rng)
     pp = os.path.join(w, "pool.ndjson")
     vlib.write_ndjson(pp, picks)
     mcfg = os.path.join(w, "mc.cfg")
@@ -143,20 +149,33 @@ def choose_bases(ck, classes, level, nbase, rng, workers):
         if e["ideal"]:
             by[e["c"]].append(e)
     chosen = []
+    kinds_cov = {}
     for c in classes:
         cand = by.get(c, [])
         if not cand:
             raise Broken("no valid base file for class %s" % c)
         rng.shuffle(cand)
+        size = lambda e: sum(len(l) for l in e["lines"])
         # one per structure first (largest files first), then the rest
-        cand.sort(key=lambda e: -sum(len(l) for l in e["lines"]))
+        cand.sort(key=lambda e: -size(e))
         seen = set()
         first, rest = [], []
         for e in cand:
             (first if e["s"] not in seen else rest).append(e)
             seen.add(e["s"])
-        sel = (first + rest)[:nbase]
+        if light:
+            allk = set().union(*[set(e["kinds"]) for e in cand])
+            full = [e for e in cand if set(e["kinds"]) == allk]
+            if not full:
+                raise Broken("no single valid file of class %s holds every kind of field of the class (%s)" % (c, sorted(allk)))
+            small = min(full, key=size)
+            sel = ([small] + [e for e in first if e["s"] != small["s"]] + [e for e in first + rest if e is not small])[:nbase]
+            kinds_cov[c] = sorted(allk)
+        else:
+            sel = (first + rest)[:nbase]
         chosen += [{"c": e["c"], "s": e["s"], "d": e["d"]} for e in sel]
+    if light:
+        ck.cov["field_kinds_per_class_in_the_first_valid_file"] = kinds_cov
     return chosen
 
 
@@ -409,11 +428,12 @@ def _run(ck, tier):
     vlib.build_lib()
     rng = random.Random(vlib.seed() * 104729 + 9)
     workers = int(os.environ.get("VERIF_TLC_WORKERS", "8"))
-    if tier == "quick":
-        classes, level, nbase = QUICK_CLASSES + ["CSV"], 1, 5
-    else:
-        classes, level, nbase = ALL_CLASSES + ["CSV"], 1, 12
-    picks = choose_bases(ck, classes, level, nbase, rng, workers)
+    # both tiers exercise EVERY loader class of the catalogue; quick: 3 valid files per class (the smallest one that holds
+    # every kind of field of the class + the largest ones of other structures) with the whole token-level fault set;
+    # thorough: 12 valid files per class, every byte prefix, the grid exchange formats
+    classes, level = ALL_CLASSES + ["CSV"], 1
+    nbase = 3 if tier == "quick" else 12
+    picks = choose_bases(ck, classes, level, nbase, rng, workers, light=(tier == "quick"))
     # valid files of the text grid exchange formats: the fault layer applies to their lines of tokens (class "Raw")
     xfiles = exchange_files(ck) if tier == "thorough" else {}
     raw_fmt = {}
@@ -550,9 +570,19 @@ def _run(ck, tier):
                          (v["text"][:300], outs[v["id"]], sani.get(v["id"])))
     stats = evaluate(ck, files + valid, outs, sani, "main")
     per_kind = collections.Counter(f["kind"] for f in files)
-    for k in ("trunc", "corrupt", "emptyline", "wrongclass", "dupline", "dropline", "tagonly", "bound"):
+    for k in ("trunc", "corrupt", "emptyline", "wrongclass", "dupline", "dropline", "tagonly", "bound", "duptok"):
         if per_kind[k] == 0:
             raise Broken("no fault of kind %s was generated" % k)
+    # every loader class of the catalogue, with every kind of token-level fault that applies to all files
+    kinds_by_class = collections.defaultdict(set)
+    for f in files:
+        kinds_by_class[f["c"]].add(f["kind"])
+    for c in classes:
+        miss = {"trunc", "corrupt", "emptyline", "wrongclass", "dupline", "dropline", "tagonly", "duptok"} - kinds_by_class.get(c, set())
+        if miss:
+            raise Broken("class %s of the catalogue is not exercised by the faults %s in this tier" % (c, sorted(miss)))
+        if c != "CSV" and "bound" not in kinds_by_class[c]:
+            raise Broken("no boundary replacement was generated for class %s" % c)
     div = collections.Counter(e["diverge"] for e in faults)
     ck.cov["states"] = res.distinct
     ck.cov["transitions"] = max(res.generated - len(picks), 1)
